@@ -57,12 +57,15 @@ pub fn search(tier: &str, seed: u64, s: &mut Search) {
     let timeout = Duration::from_secs(15);
     let mut run = |wk: &mut Worker, s: &mut Search, class: &str, data: &[u8], dpi: f32| {
         let out = wk.run(&format!("parse {} {}", dpi, hex_encode(data)), timeout);
+        let hang_at = wk.last_hang.take();
         let key = String::from_utf8_lossy(data).to_string();
         s.case(class, &key, matches!(&out, Outcome::Answer(a) if a.starts_with("ok")));
         if !matches!(out, Outcome::Answer(_)) {
             *wk = Worker::spawn();
         }
         if let Some((sig, what)) = classify(&out) {
+            // a job over budget: the signature names where it was executing
+            let sig = if out == Outcome::Timeout { format!("{}_@{}", sig, hang_at.clone().unwrap_or_else(|| "?".into())) } else { sig };
             s.finding(&sig, &what, &key);
         }
     };
@@ -109,12 +112,14 @@ pub fn search(tier: &str, seed: u64, s: &mut Search) {
                             let doc = format!("{}{}{}", &base[..st], v, &base[st + len..]);
                             let class = format!("attr-sweep-{}", name);
                             let out = wk.run(&format!("parse 96 {}", hex_encode(doc.as_bytes())), timeout);
+                            let hang_at = wk.last_hang.take();
                             let key = format!("{} {}=\"{}\"", name, an, v);
                             s.case(&class, &key, matches!(&out, Outcome::Answer(a) if a.starts_with("ok")));
                             if !matches!(out, Outcome::Answer(_)) {
                                 wk = Worker::spawn();
                             }
                             if let Some((sig, what)) = classify(&out) {
+                                let sig = if out == Outcome::Timeout { format!("{}_@{}", sig, hang_at.unwrap_or_else(|| "?".into())) } else { sig };
                                 s.finding(&sig, &format!("{} ({})", what, key), &doc);
                             }
                         }
@@ -168,6 +173,32 @@ pub fn search(tier: &str, seed: u64, s: &mut Search) {
                 rng.pick(&["1", "1 2 3 4 5 6", ""]), rng.pick(&sizes), rng.pick(&["0", "1e38", "-5"]), rng.pick(&["lr", "tb"])
             );
             run(&mut wk, s, "text-edge", doc.as_bytes(), 96.0);
+        }
+    }
+    // huge geometry: curve and arc segments with adversarial magnitudes, stroked (the stroke box is computed while parsing)
+    {
+        let mags = [1.0f64, 1e6, 1e12, 1e17, 9e17, 1e18, 1.1e18, 1e19, 1e20, 1e30, 3e38];
+        let nh = if tier == "thorough" { 3000 } else { 400 } * mult;
+        for i in 0..nh {
+            let mut c = |rng: &mut Rng| {
+                let m = *rng.pick(&mags);
+                let f = rng.range(0, 1000) as f64 / 1000.0;
+                if rng.chance(1, 2) { m * f } else { -m * f }
+            };
+            let d = match i % 5 {
+                0 => format!("M {} {} Q {} {} {} {}", c(&mut rng), c(&mut rng), c(&mut rng), c(&mut rng), c(&mut rng), c(&mut rng)),
+                1 => format!("M {} {} C {} {} {} {} {} {}", c(&mut rng), c(&mut rng), c(&mut rng), c(&mut rng), c(&mut rng), c(&mut rng), c(&mut rng), c(&mut rng)),
+                2 => format!("M {} {} Q {} {} {} {} T {} {} S {} {} {} {} Z", c(&mut rng), c(&mut rng), c(&mut rng), c(&mut rng), c(&mut rng), c(&mut rng), c(&mut rng), c(&mut rng), c(&mut rng), c(&mut rng), c(&mut rng), c(&mut rng)),
+                3 if i % 120 == 3 => format!("M {} {} A {} {} {} {} {} {} {}", c(&mut rng), c(&mut rng), c(&mut rng), c(&mut rng), rng.range(0, 360), rng.below(2), rng.below(2), c(&mut rng), c(&mut rng)),
+                3 => format!("M {} {} C {} {} {} {} {} {} S {} {} {} {}", c(&mut rng), c(&mut rng), c(&mut rng), c(&mut rng), c(&mut rng), c(&mut rng), c(&mut rng), c(&mut rng), c(&mut rng), c(&mut rng), c(&mut rng), c(&mut rng)),
+                _ => format!("M 0 0 L {} {} Q {} {} 10 10 L 20 0", c(&mut rng), c(&mut rng), c(&mut rng), c(&mut rng)),
+            };
+            let doc = format!(
+                r#"<svg xmlns="http://www.w3.org/2000/svg" viewBox="0 0 200 200"><path d="{}" fill="{}" stroke="black" stroke-width="{}" stroke-linejoin="{}" stroke-linecap="{}"{}/></svg>"#,
+                d, rng.pick(&["none", "red"]), rng.pick(&["1", "0.001", "1e10", "1e18", "1e30"]), rng.pick(&["miter", "round", "bevel"]), rng.pick(&["butt", "round", "square"]),
+                if rng.chance(1, 4) { r#" transform="rotate(30) skewX(10)""# } else { "" }
+            );
+            run(&mut wk, s, "huge-geometry", doc.as_bytes(), 96.0);
         }
     }
     // raw bytes and truncated gzip
